@@ -369,7 +369,7 @@ func TestC12(t *testing.T) {
 			}
 			twin, _ := cpus()
 			var cut int64
-			r.Rapid("rununtil", rig.Pick(10000, 60000), func(t *rapid.T) {
+			r.Rapid("rununtil", rig.Pick(40000, 150000), func(t *rapid.T) {
 				d := rig.RapidDrawer{T: t}
 				syn := rig.NewSynth(d, nil)
 				op0 := byte(d.U32("op0-pre"))
